@@ -862,6 +862,9 @@ class ValueFunc(Value):
         return self is other
 
     def __lt__(self, other):
+        if isinstance(other, ValueFunc) and str(self) == str(other):
+            # equally named functions: the older one comes first
+            return self.created < other.created
         return str(self) < str(other)
 
     def __repr__(self):
